@@ -2,7 +2,7 @@
   Props.C20 — logical databases are isolated namespaces (frame theorems over step programs).
   Property theorems only; helper lemmas live in Lemmas/.
 -/
-import SugarModel.Lemmas.NoFlush
+import SugarModel.Lemmas.Hist
 namespace Sugar.Props.C20
 open Sugar
 
@@ -56,6 +56,80 @@ theorem flushall_empties_all (s : State) (j : Nat) (d : Db) (h : (flushAll s).db
     split at h
     · simp only [Option.some.injEq] at h; rw [← h]
     · exact ih h
+
+/-- **Isolation over histories.** Any history of modelled commands, issued by any number of connections with any
+    selected databases other than `j` (a different one for each command if they like), at any clock readings, that
+    contains no FLUSHALL, leaves database `j` — keys, values, deadlines, volatile-key index — exactly as it was.
+    Unbounded in the length of the history; panics and unmodelled outcomes of single commands included. -/
+theorem history_isolated (h : List (Ctx × List Bytes)) (s s' : State) (j : Nat)
+    (hdb : ∀ e ∈ h, j ≠ e.1.db)
+    (hnf : ∀ e ∈ h, ¬ eqFold (e.2.headD []) (b "flushall") = true)
+    (hr : runHist s h = some s') :
+    s'.db j = s.db j := by
+  induction h generalizing s with
+  | nil => simp only [runHist, Option.some.injEq] at hr; rw [hr]
+  | cons e rest ih =>
+    obtain ⟨c, cmd⟩ := e
+    simp only [runHist] at hr
+    cases hs : step c s cmd with
+    | none => simp [hs] at hr
+    | some r =>
+      obtain ⟨s1, o⟩ := r
+      simp only [hs] at hr
+      have h1 : s1.db j = s.db j :=
+        command_isolated c s cmd s1 o j (hdb (c, cmd) (by simp)) (hnf (c, cmd) (by simp)) hs
+      have h2 := ih s1 (fun e he => hdb e (by simp [he])) (fun e he => hnf e (by simp [he])) hr
+      rw [h2, h1]
+
+/-- **SELECT affects only the issuing connection**: the registration of every other connection keeps its database -/
+theorem select_only_issuer (c : Ctx) (s : State) (d i : Nat) (hi : c.conn.getD 0 ≠ i) :
+    (setConnDb c s d).conns.get i = s.conns.get i := by
+  unfold setConnDb
+  simp only
+  rw [NMap.get_put_other _ _ _ _ hi]
+  unfold State.createDb
+  split <;> rfl
+
+/-- … and it does point the issuer at the database it named -/
+theorem select_points_issuer (c : Ctx) (s : State) (d : Nat) :
+    (setConnDb c s d).conns.get (c.conn.getD 0) = some d := by
+  unfold setConnDb
+  simp
+
+/-- SELECT changes no dataset: every database reads as before -/
+theorem select_keeps_data (c : Ctx) (s : State) (d j : Nat) : (setConnDb c s d).db j = s.db j := by
+  unfold setConnDb
+  exact Sugar.createDb_db_all s d j
+
+/-- **SWAPDB exchanges the two databases as seen by every client connection**: a registered connection on `d1`
+    is on `d2` afterwards, one on `d2` is on `d1`, every other connection stays where it was — for every
+    connection table and every pair of distinct indices. -/
+theorem swapdb_repoints_every_connection (s : State) (d1 d2 i : Nat) (hne : d1 ≠ d2) :
+    (swapDbs s d1 d2).conns.get i
+      = (s.conns.get i).map fun d => if d = d1 then d2 else if d = d2 then d1 else d := by
+  unfold swapDbs
+  have h0 : (d1 == d2) = false := by simpa using hne
+  simp only [h0, Bool.false_eq_true, if_false]
+  have hc : ((s.createDb d1).createDb d2).conns = s.conns := by
+    unfold State.createDb; split <;> split <;> rfl
+  rw [hc]
+  have := Sugar.get_mapVals s.conns (fun d => if (d == d1) = true then d2 else if (d == d2) = true then d1 else d) i
+  simp only [beq_iff_eq] at this ⊢
+  exact this
+
+/-- SWAPDB moves no key: every dataset reads as before (the exchange is in the connections' selection) -/
+theorem swapdb_keeps_data (s : State) (d1 d2 j : Nat) : (swapDbs s d1 d2).db j = s.db j := by
+  unfold swapDbs
+  split
+  · rfl
+  · show ((s.createDb d1).createDb d2).db j = s.db j
+    rw [Sugar.createDb_db_all, Sugar.createDb_db_all]
+
+/-- non-vacuity of `history_isolated`: two connections on databases 0 and 2 write, database 1 keeps its key -/
+example : (runHist { dbs := [(1, ⟨[(b "k", ⟨.str (b "v"), none⟩)], []⟩)], mem := 0 }
+            [({ db := 0, now := 1000, conn := some 1 }, [b "set", b "k", b "x"]),
+             ({ db := 2, now := 1001, conn := some 2 }, [b "del", b "k"])]).map (fun r => r.db 1)
+          = some ⟨[(b "k", ⟨.str (b "v"), none⟩)], []⟩ := by decide
 
 /-- non-vacuity: a concrete two-database state and a write under database 0 -/
 example : (step { db := 0, now := 1000 } { dbs := [(0, ⟨[], []⟩), (1, ⟨[(b "k", ⟨.str (b "v"), none⟩)], []⟩)], mem := 0 }
